@@ -43,6 +43,7 @@ type runner struct {
 	prog  string
 	start int
 	steps int
+	drift int
 }
 
 func newRunner(t *testing.T, engine string) *runner {
@@ -87,6 +88,10 @@ func (r *runner) run(id int, acts [][]any, gen func(h *H, last []any, obs map[st
 			os.WriteFile(r.prog+".act", b, 0o644)
 		}
 		obs, err := h.Exec(a)
+		if err == ErrDrift {
+			r.drift++
+			break
+		}
 		if err != nil {
 			r.rep.Inconc(fmt.Sprintf("case %d step %d %v: %v", id, i, a, err))
 			break
@@ -118,6 +123,7 @@ func (r *runner) finish(t *testing.T) {
 	r.tw.Close()
 	r.rep.Distinct = r.rep.Cases
 	r.rep.Stats["steps"] = r.steps
+	r.rep.Stats["histories_cut_after_divergence"] = r.drift
 	if err := r.rep.Write(); err != nil {
 		t.Fatal(err)
 	}
